@@ -27,6 +27,7 @@ type Env struct {
 	depth    int
 	iterSnap map[ssa.Value]string // frozen iterator "visited" sets (clauses instantiated later)
 	inCallee bool                 // evaluating a callee's contract at a call site (vars = callee parameters)
+	cells    map[string]Value     // local variables living in memory: name -> pointer to the cell (addr(name))
 }
 
 type specErr string
